@@ -763,12 +763,30 @@ func c06RunScheduled(t testing.TB, run *vk.Run, sc c06Scenario, s *vk.Sched, fai
 				nOK++
 			}
 		}
-		// at-most-once also against a later, sequential activator on another node
-		if nOK > 0 {
+		// window: a revoke was acknowledged strictly inside an activation whose own write of the
+		// code record (its commit) then failed
+		if f, _ := failedOp.Load().(string); strings.Contains(f, ":conncode:code:") || strings.Contains(f, ":conncode:id:") {
+			for _, rv := range calls {
+				if rv.Kind != "revoke" || !rv.OK {
+					continue
+				}
+				for _, a := range calls {
+					if a.Kind == "activate" && !a.OK && a.CallStep < rv.CallStep && rv.RetStep < a.RetStep && strings.Contains(a.Err, "injected") {
+						run.Count("window_revoke_acknowledged_inside_activation_whose_commit_write_failed", 1)
+					}
+				}
+			}
+		}
+		// whatever happened, a later sequential activator on another node follows: at most once
+		// overall, and never after an acknowledged revoke
+		{
 			late := &c06Call{Thread: "late", Kind: "activate", Node: sc.Nodes - 1, Client: 30000009, Listen: "0.0.0.0:7099"}
 			w.do(late)
 			calls = append(calls, late)
 			run.Count("late_activations_tried", 1)
+			if nOK == 0 {
+				run.Count("late_activations_after_no_success", 1)
+			}
 		}
 		scan := w.scan()
 		fs := c06Judge(w, calls, scan, run)
@@ -1200,6 +1218,17 @@ func TestVerifC06Faults(t *testing.T) {
 		})
 		run.Count("fault_dfs_runs", int64(st.Runs))
 	}
+	// (c) one activator and a revoker on another node: every write index, every schedule with
+	// <=1 preemption (<=2 thorough) - includes "revoke completes inside the activation, then the
+	// activation's commit write fails"; a further activation follows every run
+	ar := c06Scenarios["1act+revoke"]
+	for i := 1; i <= n1+4; i++ {
+		run.Case("fault-1act+revoke-dfs", i)
+		st := vk.Explore(pre, capPer, 400, func(s *vk.Sched) func(bool) {
+			return c06RunScheduled(t, run, ar, s, i, "fault-dfs")
+		})
+		run.Count("fault_dfs_runs", int64(st.Runs))
+	}
 	r := run.Rand("fault-random")
 	nr := run.Pick(150, 6000)
 	kinds := []string{"2act-cross-node", "2act-same-node", "2act+revoke"}
@@ -1217,6 +1246,8 @@ func TestVerifC06Faults(t *testing.T) {
 	run.Floor("single_fault_positions_delivered", int64(n1))
 	run.Floor("faults_delivered", 100)
 	run.Floor("schedules_overlapping_windows", 30)
+	run.Floor("window_revoke_acknowledged_inside_activation_whose_commit_write_failed", 4)
+	run.Floor("late_activations_after_no_success", 20)
 	if run.Counter("watchdog") > 0 {
 		run.Floor("watchdog_free", 1)
 	}
